@@ -325,6 +325,18 @@ func (r *runner) vers() string {
 	return "dtls1.2"
 }
 
+// where names the attacked role and phase (part of the cause key of memory findings).
+func (r *runner) where() string {
+	role, phase := "server", "handshake"
+	if r.sp.victimIsClient {
+		role = "client"
+	}
+	if r.sp.k == pointEst {
+		phase = "established"
+	}
+	return role + ":" + phase
+}
+
 // prepare builds the context once and generates the catalogue.
 func (r *runner) prepare() (list []*input, reachable bool, err error) {
 	fams := []string{r.sp.fam}
@@ -410,6 +422,7 @@ func (r *runner) segment(list []*input, from int, single bool) int {
 		tr.Visit(pr.StateString(cx.n), "init")
 		lastPeek := lightPeek(victim)
 		startCur := lastPeek.cur
+		isFlood := strings.HasPrefix(r.sp.fam, "flood-") // a flood is one sequence: it goes on whatever is accepted
 		dead := false
 		stalled := false
 		_ = stalled
@@ -507,7 +520,7 @@ func (r *runner) segment(list []*input, from int, single bool) int {
 				stalled = true
 				break
 			}
-			if !dead && pk.cur != startCur {
+			if !dead && pk.cur != startCur && !isFlood {
 				// the input was accepted as the next handshake message: the rest of the catalogue was built for the
 				// old message_seq. Let this association run on (delayed effects show in the continuation) and
 				// go on with the next input on a fresh one.
@@ -836,7 +849,7 @@ func (r *runner) continuation(cx *ctx, reader *world.Op, rl *readerLog, strict b
 // finish turns deferred observations into findings.
 func (r *runner) finish() {
 	if r.cacheFirst != "" {
-		r.res.add("memory-bound-exceeded:handshake-cache:"+r.vers(), fmt.Sprintf("case %s: the handshake cache grows with every injected datagram, without bound: it reached %d entries while the endpoint stayed alive (the default run never holds more than %d; bound used %d); first exceeded after %s",
+		r.res.add("memory-bound-exceeded:handshake-cache:"+r.vers()+":"+r.where()+":"+r.sp.fam, fmt.Sprintf("case %s: the handshake cache grows with every injected datagram, without bound: it reached %d entries while the endpoint stayed alive (the default run never holds more than %d; bound used %d); first exceeded after %s",
 			r.sp.id(), r.cacheMaxSeen, r.cacheLimit-cacheSlack, r.cacheLimit, r.cacheFirst))
 	}
 }
